@@ -52,6 +52,8 @@ def run_history(ops):
                     s.set_method(v)
                 elif k == "integrate":
                     s.integrate()
+                elif k == "integrateTo":
+                    s.integrate(t=float(v))
                 elif k == "reset":
                     s.reset()
                 elif k == "print":
@@ -77,9 +79,9 @@ def random_histories(n, seed, ticks=(-3, -2, -1, 0, 1, 2, 3), length=10):
     for i in range(n):
         ops = []
         for _ in range(rnd.randint(4, length)):
-            k = rnd.choice(["setTf", "setT0", "setDt", "setMethod", "integrate", "integrate", "reset", "print"])
+            k = rnd.choice(["setTf", "setT0", "setDt", "setMethod", "integrate", "integrate", "integrateTo", "integrateTo", "reset", "print"])
             v = 0
-            if k in ("setTf", "setT0"):
+            if k in ("setTf", "setT0", "integrateTo"):
                 v = rnd.choice(ticks)
             elif k == "setDt":
                 v = rnd.choice((-1, 1))
